@@ -4,6 +4,7 @@
 -/
 import PV.Model.Bytes
 import PV.Proofs.BytesLemmas
+import PV.Proofs.C18bLemmas
 import PV.Props.C17
 
 namespace PV
@@ -71,5 +72,65 @@ theorem c18_no_shift (P : Nat) (rs got : List Rec) (h : RecsOK P rs) (k fuel : N
   omega
 
 
+
+section text_layouts
+open PV.Text
+
+/-- C18 (text layouts): cut the file of complete lines `Ls` at any byte `k`; if the block test lets T data
+    lines from line `start` through, they are exactly the stored lines `start .. start+T-1` -/
+theorem c18_text_prefix_safe (Ls : List (List Char)) (hnl : ∀ l ∈ Ls, '\n' ∉ l) (k start T : Nat)
+    (blk : List (List Char))
+    (h : readBlock (readlines ((text Ls).take k)) start T = some blk) :
+    blk = ((Ls.map (· ++ ['\n'])).drop start).take T ∧ start + T ≤ Ls.length := by
+  obtain ⟨m, p, hm, hpre, hp⟩ := take_text Ls k
+  have hnl' : ∀ l ∈ Ls.take m, '\n' ∉ l := fun l hl => hnl l (List.mem_of_mem_take hl)
+  rw [hpre, readlines_lines_rest _ hnl' p (hp hnl)] at h
+  generalize hL : ((Ls.take m).map (· ++ ['\n']) ++ (if p.isEmpty then [] else [p])) = lines at h
+  have hLlen : lines.length ≤ m + 1 := by
+    rw [← hL]
+    simp only [List.length_append, List.length_map, List.length_take]
+    split <;> simp
+  unfold readBlock at h
+  by_cases hgt : start + T + 1 > lines.length
+  · rw [if_pos hgt] at h; cases h
+  rw [if_neg hgt] at h
+  have hlen' : start + T ≤ m := by omega
+  subst hL
+  injection h with h
+  refine ⟨?_, by omega⟩
+  rw [← h, List.drop_append, List.take_append]
+  have e1 : ((Ls.take m).map (· ++ ['\n'])).length = m := by simp [hm]
+  have e2 : (((Ls.take m).map (· ++ ['\n'])).drop start).length = m - start := by simp [hm]
+  have e3 : T - (m - start) = 0 := by omega
+  rw [e2, e3]
+  simp only [List.take_zero, List.append_nil]
+  apply List.ext_getElem?
+  intro i
+  simp only [List.getElem?_take, List.getElem?_drop, List.getElem?_map]
+  split
+  · rename_i hi
+    rw [if_pos (by omega)]
+  · rfl
+
+/-- a cut that leaves the last data line unterminated, or without a following line, is refused -/
+theorem c18_text_cut_refused (Ls : List (List Char)) (hnl : ∀ l ∈ Ls, '\n' ∉ l) (k start T : Nat)
+    (hshort : start + T > Ls.length ∨ (text Ls).take k = text (Ls.take (start + T))) :
+    readBlock (readlines ((text Ls).take k)) start T = none := by
+  cases h : readBlock (readlines ((text Ls).take k)) start T with
+  | none => rfl
+  | some blk =>
+    exfalso
+    have hle := (c18_text_prefix_safe Ls hnl k start T blk h).2
+    rcases hshort with hs | hs
+    · omega
+    · have hnl' : ∀ l ∈ Ls.take (start + T), '\n' ∉ l := fun l hl => hnl l (List.mem_of_mem_take hl)
+      have := readlines_lines_rest (Ls.take (start + T)) hnl' [] (by simp)
+      simp only [List.append_nil, List.isEmpty_nil, if_true] at this
+      rw [hs, this] at h
+      unfold readBlock at h
+      rw [if_pos (by simp)] at h
+      cases h
+
+end text_layouts
 
 end PV
